@@ -39,6 +39,11 @@ type LockModel struct {
 type lstate struct {
 	acq lockSet // must-held, acquired within the function
 	rel lockSet // may-released within the function (relative to entry)
+	may lockSet // may-held because of an acquisition within the function (no owner-token assumption)
+	// crel: classes released only on the "owner token does not match" edge (the re-entrant unlock wrapper);
+	// excl: classes held exclusively (owner token published while holding): conditional releases in callees do not apply
+	crel lockSet
+	excl lockSet
 }
 
 type fnLocks struct {
@@ -47,6 +52,10 @@ type fnLocks struct {
 	at      map[ssa.Instruction]lstate // state before executing the instruction
 	adds    lockSet
 	removes lockSet
+	condRemoves lockSet // released only when the caller is not the exclusive owner
+	addsExcl    lockSet // returns as exclusive owner
+	mayExit lockSet // classes possibly still held (acquired inside) at some return
+	leakAt  map[int]ssa.Instruction
 	defers  []*ssa.Defer
 	hasBody bool
 }
@@ -154,9 +163,9 @@ func (m *Models) Locks() *LockModel {
 		changed := false
 		for _, fn := range p.SrcFuncs() {
 			fl := lm.fl[fn]
-			a, r := fl.adds, fl.removes
+			a, r, my, cr, ax := fl.adds, fl.removes, fl.mayExit, fl.condRemoves, fl.addsExcl
 			lm.analyse(fl)
-			if fl.adds != a || fl.removes != r {
+			if fl.adds != a || fl.removes != r || fl.mayExit != my || fl.condRemoves != cr || fl.addsExcl != ax {
 				changed = true
 			}
 		}
@@ -358,6 +367,15 @@ func (lm *LockModel) tokenCAS(v ssa.Value) (class int, trueIsSuccess bool, ok bo
 
 // applyCall applies the effect of calling (any of) the callees at c to st.
 func (lm *LockModel) applyCall(c ssa.CallInstruction, st lstate) lstate {
+	// publishing the owner token while holding the class makes the hold exclusive
+	if strings.HasPrefix(fullCalleeName(c), "sync/atomic.Store") && len(c.Common().Args) > 0 {
+		if fa, ok := c.Common().Args[0].(*ssa.FieldAddr); ok {
+			if cls, ok := lm.tokenOf[fieldOf(fa)]; ok && st.acq.has(cls) {
+				st.excl |= 1 << uint(cls)
+			}
+		}
+		return st
+	}
 	if op, cls, unres := lm.lockOp(c); op != 0 {
 		if unres {
 			lm.problems = append(lm.problems, fmt.Sprintf("%s: lock operation on a mutex that is not a known field/global", lm.p.Pos(c.Pos())))
@@ -365,33 +383,56 @@ func (lm *LockModel) applyCall(c ssa.CallInstruction, st lstate) lstate {
 		}
 		if op > 0 {
 			st.acq |= 1 << uint(cls)
+			st.may |= 1 << uint(cls)
 		} else {
 			st.acq &^= 1 << uint(cls)
-			st.rel |= 1 << uint(cls)
+			if lm.condBlock(c.Block()) {
+				st.crel |= 1 << uint(cls)
+			} else {
+				st.rel |= 1 << uint(cls)
+				st.excl &^= 1 << uint(cls)
+			}
+			st.may &^= 1 << uint(cls)
 		}
 		return st
 	}
 	cals := lm.p.Callees(c)
 	first := true
-	var acq, rel lockSet
+	var acq, rel, may, crel, excl lockSet
 	for _, g := range cals {
 		fl := lm.fl[g]
 		if fl == nil {
 			continue // external or body-less: no effect on package locks
 		}
-		a := (st.acq &^ fl.removes) | fl.adds
+		cr := fl.condRemoves &^ st.excl // conditional releases do not apply under an exclusive hold
+		a := (st.acq &^ (fl.removes | cr)) | fl.adds
 		r := st.rel | fl.removes
 		if first {
-			acq, rel, first = a, r, false
+			crel, excl = st.crel|cr, (st.excl&^fl.removes)|fl.addsExcl
+		} else {
+			crel |= st.crel | cr
+			excl &= (st.excl &^ fl.removes) | fl.addsExcl
+		}
+		// may-held: a callee that may release clears it only if it certainly releases (removes and not re-adds);
+		// a callee that may return holding adds it
+		my := (st.may &^ (fl.removes | cr)) | fl.mayExit
+		if first {
+			acq, rel, may, first = a, r, my, false
 		} else {
 			acq &= a
 			rel |= r
+			may |= my
 		}
 	}
 	if first {
 		return st
 	}
-	return lstate{acq: acq, rel: rel}
+	if lm.handlerDynSites[c] {
+		// the handler dispatch: which handlers may run under an exclusive hold without touching the mutex
+		// is decided by rule A2-reentrant; for the held set the dispatch is neutral
+		return lstate{acq: st.acq, rel: st.rel, may: may, crel: st.crel, excl: st.excl}
+	}
+	return lstate{acq: acq, rel: rel, may: may, crel: crel, excl: excl}
 }
 
 func (lm *LockModel) analyse(fl *fnLocks) {
@@ -413,7 +454,9 @@ func (lm *LockModel) analyse(fl *fnLocks) {
 	fl.in[fn.Blocks[0]] = lstate{}
 	inWork := map[*ssa.BasicBlock]bool{fn.Blocks[0]: true}
 	var exitAcq lockSet = ^lockSet(0)
-	var exitRel lockSet
+	var exitExcl lockSet = ^lockSet(0)
+	var exitRel, exitMay, exitCrel lockSet
+	fl.leakAt = map[int]ssa.Instruction{}
 	sawExit := false
 	for len(work) > 0 {
 		b := work[0]
@@ -426,12 +469,19 @@ func (lm *LockModel) analyse(fl *fnLocks) {
 			switch x := in.(type) {
 			case *ssa.Call:
 				st = lm.applyCall(x, st)
+			case *ssa.Defer:
+				// a deferred release is certain to run once registered: for leak detection (may-held) it
+				// cancels the acquisition right here; the must-held set keeps the lock until RunDefers
+				after := lm.applyCall(x, st)
+				st.may &^= st.may &^ after.may
 			case *ssa.RunDefers:
 				// deferred calls run LIFO; a defer whose block dominates this one has certainly been registered
 				for i := len(fl.defers) - 1; i >= 0; i-- {
 					d := fl.defers[i]
 					if d.Block() == b || d.Block().Dominates(b) {
+						my := st.may
 						st = lm.applyCall(d, st)
+						st.may = my | (st.may &^ my)
 					} else {
 						// maybe registered: keep only its releasing effect
 						after := lm.applyCall(d, st)
@@ -443,9 +493,17 @@ func (lm *LockModel) analyse(fl *fnLocks) {
 		}
 		// terminator
 		if len(b.Succs) == 0 {
-			if _, isRet := b.Instrs[len(b.Instrs)-1].(*ssa.Return); isRet {
+			if ret, isRet := b.Instrs[len(b.Instrs)-1].(*ssa.Return); isRet {
 				exitAcq &= st.acq
+				exitExcl &= st.excl
 				exitRel |= st.rel
+				exitCrel |= st.crel
+				exitMay |= st.may
+				for i := range lm.names {
+					if st.may.has(i) && fl.leakAt[i] == nil {
+						fl.leakAt[i] = ret
+					}
+				}
 				sawExit = true
 			}
 			continue
@@ -477,7 +535,10 @@ func (lm *LockModel) analyse(fl *fnLocks) {
 					ns, firstPred = e, false
 				} else {
 					ns.acq &= e.acq
+					ns.excl &= e.excl
 					ns.rel |= e.rel
+					ns.crel |= e.crel
+					ns.may |= e.may
 				}
 			}
 			old, had := fl.in[s]
@@ -493,11 +554,35 @@ func (lm *LockModel) analyse(fl *fnLocks) {
 	_ = top
 	if !sawExit {
 		// never returns normally (infinite loop / panics): neutral summary
-		fl.adds, fl.removes = 0, 0
+		fl.adds, fl.removes, fl.mayExit, fl.condRemoves, fl.addsExcl = 0, 0, 0, 0, 0
 		return
 	}
 	fl.adds = exitAcq
 	fl.removes = exitRel &^ exitAcq
+	fl.condRemoves = exitCrel &^ exitAcq &^ fl.removes
+	fl.addsExcl = exitExcl & exitAcq
+	fl.mayExit = exitMay
+}
+
+// condBlock: the block is the "owner token does not match" successor of the re-entrancy test.
+func (lm *LockModel) condBlock(b *ssa.BasicBlock) bool {
+	if len(b.Preds) != 1 {
+		return false
+	}
+	pr := b.Preds[0]
+	ifi, ok := pr.Instrs[len(pr.Instrs)-1].(*ssa.If)
+	if !ok {
+		return false
+	}
+	_, trueIsSucc, ok := lm.tokenCAS(ifi.Cond)
+	if !ok {
+		return false
+	}
+	failIdx := 0
+	if trueIsSucc {
+		failIdx = 1
+	}
+	return pr.Succs[failIdx] == b
 }
 
 // HeldAt: classes certainly held just before `in` executes, given the classes held at function entry.
@@ -510,7 +595,7 @@ func (lm *LockModel) HeldAt(in ssa.Instruction, entry lockSet) lockSet {
 	if !ok {
 		return 0 // unreachable instruction
 	}
-	return (entry &^ st.rel) | st.acq
+	return (entry &^ (st.rel | st.crel)) | st.acq
 }
 
 // LocallyHeld: classes acquired inside the function itself and held before `in`.
